@@ -65,9 +65,8 @@ Qed.
 
 Lemma chain_min s c l ok : safe s -> chain s c = (l, ok) -> Forall (fun x => 2 <= x) l.
 Proof.
-  intros (_ & _ & _ & Hv & _) H. apply Forall_forall. intros x Hx. unfold chain in H.
-  pose proof (chain_go_in_fat (length (s_fat s)) (ft s) (dmax s) (s_fat s) c x) as Hc. rewrite H in Hc. cbn [fst] in Hc.
-  destruct (Hc Hx) as [_ Hm]. destruct (vt_consts _ Hv) as (Hmin & _). lia.
+  intros (_ & _ & _ & Hv & _) H. eapply Forall_impl; [|exact (chain_members_bounded _ _ _ _ H)]. intros x Hx. cbv beta in Hx.
+  destruct (vt_consts _ Hv) as (Hmin & _). lia.
 Qed.
 Lemma allocate_min s size e cs s' : safe s -> allocate s size e = Ok (cs, s') -> Forall (fun x => 2 <= x) cs.
 Proof.
